@@ -208,6 +208,27 @@ Section Witness.
 
 End Witness.
 
+(* witness.New over a database that already exists (a restart of the process, or a second Witness
+   value created over the same database): CREATE TABLE IF NOT EXISTS - every row stays, whichever
+   logs are configured now.  Nothing else of the witness outlives the value: no other state. *)
+Definition restart (st : state) : state := st.
+
+(* the configured logs: the [idhash] oracle of the Section above *)
+Definition config := logid -> option (option bytes).
+
+(* a life of the database: epochs, each one Witness value with its own configuration, each started
+   by witness.New on the table the previous one left *)
+Fixpoint run_epochs (H : bytes -> bytes) (hlen : nat) (strict_len cosign_held : bool)
+    (decode : bytes -> option psth) (sig_ok : logid -> psth -> bool) (sign : bytes -> bytes)
+    (st : state) (eps : list (config * list op)) : state * list (list out) :=
+  match eps with
+  | [] => (st, [])
+  | (idh, ops) :: t =>
+      let '(st1, rs) := run H hlen strict_len cosign_held idh decode sig_ok sign (restart st) ops in
+      let '(st2, rss) := run_epochs H hlen strict_len cosign_held decode sig_ok sign st1 t in
+      (st2, rs :: rss)
+  end.
+
 (* executions of N concurrent clients: every interleaving of their operation sequences *)
 Inductive interleaving {A : Type} : list (list A) -> list A -> Prop :=
 | il_done : forall ts, Forall (fun t => t = []) ts -> interleaving ts []
